@@ -387,12 +387,6 @@ def diagnose(module, evs, spe=None):
             "cannot_place": (best[2][:3000] if best else "(no dead end printed)")}
 
 
-def stuck_ops(diag, evs):
-    """ids of the operations that could not be placed after the longest prefix"""
-    ids = [int(x) for x in re.findall(r"<<\s*(\d+),", diag.get("cannot_place", ""))]
-    return [e for e in evs if e["id"] in ids]
-
-
 # ---------------------------------------------------------------- the check
 
 
@@ -442,8 +436,8 @@ def tiers(tier):
                 "hist": {"fc": 600, "pk": 800, "keyed": 500, "att": 600, "sync": 600},
                 "probe_hist": 250, "shards": 2}
     return {"pair_iters": 20000, "gor": 4, "ops": 9,
-            "hist": {"fc": 9000, "pk": 12000, "keyed": 9000, "att": 9000, "sync": 9000},
-            "probe_hist": 3000, "shards": 10}
+            "hist": {"fc": 7000, "pk": 9000, "keyed": 6000, "att": 7000, "sync": 7000},
+            "probe_hist": 2000, "shards": 8}
 
 
 def run_check(pid, tier, seed, replay=None):
@@ -625,20 +619,36 @@ def run_check(pid, tier, seed, replay=None):
         cc["linearization_states"] = cc.get("linearization_states", 0) + res.distinct
         run.histories_ok += len(ok)
         bad = [k for k in range(len(lst)) if k not in ok]
+        cc["not_linearizable"] = cc.get("not_linearizable", 0) + len(bad)
+        # a listed non-race finding explains a rejected history iff the history linearizes once exactly the calls with
+        # the listed wrong reply are taken out (one more batched TLC run); everything else is diagnosed one by one
+        for entry in [e for e in findings if e.get("match", {}).get("type") == "nonlinearizable"]:
+            m = entry["match"]
+            if not bad or m.get("driver") != drv or (m.get("mix") and m["mix"] != mix):
+                continue
+            def is_stuck(e, m=m):
+                return e["g"] > 0 and e["ev"] == m.get("stuck_ev") and isinstance(e.get("ret"), dict) and e["ret"].get("kind") == m.get("stuck_reply")
+            cand = [k for k in bad if any(is_stuck(e) for e in lst[k])]
+            if not cand:
+                continue
+            ok2, res2 = linearize(module, [[e for e in lst[k] if not is_stuck(e)] for k in cand], spe=spe)
+            run.states += res2.distinct
+            run.transitions += res2.generated
+            for pos, k in enumerate(cand):
+                if pos in ok2:
+                    run.note_known(entry)
+                    bad.remove(k)
         for k in bad[:6]:
             evs = lst[k]
             dg = diagnose(module, evs, spe=spe)
             if dg["linearizable"]:
                 raise lib.InfraError("history rejected in the batch but accepted alone (%s): search is not deterministic?" % drv)
-            stuck = stuck_ops(dg, evs)
-            entry = match_nonlin(findings, drv, mix, stuck)
-            if entry is not None:
-                run.note_known(entry)
-                continue
             content = {"kind": "nonlinearizable", "driver": drv, "module": module, "spe": spe, "history": evs, "diagnosis": dg}
             run.violation("nolin-%s-h%d-seed%d.json" % (drv, evs[0]["h"], seed), content,
                           "%s history %d has NO linearization: after placing %d of %d operations (order of ids %s) none of %s can be placed"
                           % (drv, evs[0]["h"], dg["placed"], len(evs), dg["prefix_order_ids"], dg["cannot_place"][:700]))
+        for k in bad[6:]:
+            run.violations.append(("(not saved)", "%s history %d has no linearization (not diagnosed: more than 6 in one batch)" % (drv, lst[k][0]["h"])))
         cc["not_linearizable"] = cc.get("not_linearizable", 0) + len(bad)
 
     lib.log("[%.0fs] linearization searched (%d TLC runs)" % (lib.elapsed() - t0, len(lin_jobs)))
@@ -680,18 +690,6 @@ def finish(run, tier, seed, t0, model_findings, att_full, skipped_histories=Fals
                                     "sequential specifications ForkChoice.tla / PubkeyCache.tla / Pools.tla",
                                     "callbacks passed to the components do not touch the component"])
     return 1 if run.violations else 0
-
-
-def match_nonlin(findings, drv, mix, stuck):
-    for e in findings:
-        m = e.get("match", {})
-        if m.get("type") != "nonlinearizable" or m.get("driver") != drv:
-            continue
-        if m.get("mix") and m["mix"] != mix:
-            continue
-        if stuck and all(s["ev"] == m.get("stuck_ev") and s.get("ret", {}).get("kind") == m.get("stuck_reply") for s in stuck):
-            return e
-    return None
 
 
 # ---------------------------------------------------------------- replay
